@@ -282,7 +282,7 @@ Theorem wsgi_framing_refuted_before_fix :
 Proof.
   exists {| i_head := false; i_status := SLine [50; 48; 52; 32; 78; 111]; i_text := Some [97];
             i_data := None; i_media := None; i_stream := None; i_sse := None; i_clen := None;
-            i_ctype := None; i_wrapper := false |}.
+            i_ctype := None; i_wrapper := false; i_cached := false |}.
   eexists. repeat split; try (vm_compute; reflexivity). vm_compute. discriminate.
 Qed.
 
@@ -293,7 +293,7 @@ Theorem typeless_no_ctype_refuted :
 Proof.
   exists {| i_head := false; i_status := SInt 204; i_text := None; i_data := None;
             i_media := Some [123; 125]; i_stream := None; i_sse := None; i_clen := None;
-            i_ctype := None; i_wrapper := false |}.
+            i_ctype := None; i_wrapper := false; i_cached := false |}.
   eexists. repeat split; try (vm_compute; reflexivity). vm_compute. discriminate.
 Qed.
 
@@ -668,4 +668,77 @@ Proof.
         try destruct (i_head i && negb (wsgi_in_set true l c wsgi_bodiless));
         injection Hw as <-; reflexivity.
   - injection Hw as <-. reflexivity.
+Qed.
+
+(* ------------------------------------------------------------------ responses built in steps *)
+
+(* the render cache, when filled, holds the serialization of the CURRENT media *)
+Definition cache_inv (s : rstate) : Prop :=
+  match rs_rendered s with Some r => rs_media s = Some r | None => True end.
+
+Lemma do_step_inv s st : cache_inv s -> cache_inv (do_step s st).
+Proof.
+  unfold cache_inv. intro H. destruct st; simpl; auto.
+  unfold render_state.
+  destruct (rs_text s) eqn:Et; [exact H|]. destruct (rs_data s) eqn:Ed; [exact H|].
+  destruct (rs_media s) as [m|] eqn:Em; [|simpl; rewrite Em; exact H].
+  destruct (rs_rendered s) as [r|] eqn:Er; simpl.
+  - rewrite Er, Em. exact H.
+  - reflexivity.
+Qed.
+
+Lemma do_step_values s st :
+  (rs_text (do_step s st), rs_data (do_step s st), rs_media (do_step s st)) =
+  (let '(t, d, m) := (rs_text s, rs_data s, rs_media s) in
+   match st with
+   | StText v => (v, d, m) | StData v => (t, v, m) | StMedia v => (t, d, v) | _ => (t, d, m)
+   end).
+Proof.
+  destruct st; simpl; try reflexivity.
+  unfold render_state. destruct (rs_text s) eqn:Et; [simpl; rewrite Et; reflexivity|].
+  destruct (rs_data s) eqn:Ed; [simpl; rewrite Et, Ed; reflexivity|].
+  destruct (rs_media s) eqn:Em; [|simpl; rewrite Et, Ed, Em; reflexivity].
+  destruct (rs_rendered s); simpl; rewrite ?Et, ?Ed, ?Em; reflexivity.
+Qed.
+
+Lemma run_steps_gen : forall l s,
+  cache_inv s ->
+  cache_inv (fold_left do_step l s) /\
+  (rs_text (fold_left do_step l s), rs_data (fold_left do_step l s), rs_media (fold_left do_step l s)) =
+  fold_left (fun acc st => let '(t, d, m) := acc in
+                           match st with
+                           | StText v => (v, d, m) | StData v => (t, v, m) | StMedia v => (t, d, v)
+                           | _ => acc end) l (rs_text s, rs_data s, rs_media s).
+Proof.
+  induction l as [|st tl IH]; intros s Hi; simpl; [auto|].
+  destruct (IH (do_step s st) (do_step_inv s st Hi)) as [I V]. split; [exact I|].
+  rewrite V. pose proof (do_step_values s st) as D. cbv zeta in D. rewrite D.
+  destruct st; reflexivity.
+Qed.
+
+(* However assignments and early render_body() calls are interleaved, what the app finally
+   renders from are the latest values of text, data and (the serialization of) media: a
+   cached rendering of an earlier media never survives a reassignment, and never shadows
+   data or text assigned later. *)
+Theorem session_values l head status stream clen wrapper :
+  let i := input_of_session l head status stream clen wrapper in
+  (i_text i, i_data i, i_media i) = latest_values l.
+Proof.
+  cbv zeta. unfold input_of_session, latest_values, run_steps.
+  destruct (run_steps_gen l rs_init I) as [Inv V]. cbn [i_text i_data i_media].
+  unfold cache_inv in Inv. cbn [rs_text rs_data rs_media rs_init] in V. rewrite <- V.
+  destruct (rs_media (fold_left do_step l rs_init)) as [m|] eqn:Em; [|reflexivity].
+  destruct (rs_rendered (fold_left do_step l rs_init)) as [r|]; [|reflexivity].
+  injection Inv as ->. reflexivity.
+Qed.
+
+Theorem session_precedence l head status stream clen wrapper :
+  render_body (input_of_session l head status stream clen wrapper) =
+  (let '(t, d, m) := latest_values l in
+   match t with Some x => Some x | None => match d with Some x => Some x | None => m end end).
+Proof.
+  pose proof (session_values l head status stream clen wrapper) as H. cbv zeta in H.
+  remember (input_of_session l head status stream clen wrapper) as i.
+  destruct (latest_values l) as [[t d] m]. injection H as H1 H2 H3.
+  unfold render_body. rewrite H1, H2, H3. reflexivity.
 Qed.
